@@ -508,6 +508,76 @@ def AnyImage.recreate (a : AnyImage) (w h : Nat) (hp : Heap) : AnyImage × Heap 
 def AnyImage.beq (a b : AnyImage) (m : Mem) : Bool :=
   decide (a.1 = b.1) && decide (a.2.w = b.2.w) && decide (a.2.h = b.2.h) && equalPixels a.2.view b.2.view m
 
+/-! ### the overload shapes of extension/dynamic_image/algorithm.hpp, as they are written there
+
+  `op(any, any)`      = `variant2::visit(op_fn, src, dst)`
+  `op(any, View dst)` = `variant2::visit(std::bind(op_fn, _1, dst), src)`
+  `op(View src, any)` = `variant2::visit(std::bind(op_fn, src, _1), dst)`
+  where `op_fn` derives from `binary_operation_obj` (its `operator()` on two CONCRETE views is `binObj`). -/
+
+/-- `variant2::visit(k, a)` / `variant2::visit(k, a, b)` -/
+def visit1 {γ : Type} (k : {t : Tag} → View t → γ) (a : AnyView) : γ := k a.2
+def visit2 {γ : Type} (k : {t1 t2 : Tag} → View t1 → View t2 → γ) (a b : AnyView) : γ := k a.2 b.2
+
+/-- `binary_operation_obj::operator()(v1, v2)` on two concrete views: the compatibility tag selects
+    `apply_compatible` or `apply_incompatible` (throws std::bad_cast before anything is touched) -/
+def binObj {β : Type} (f : {t1 t2 : Tag} → View t1 → View t2 → Mem → β × Mem) {t1 t2 : Tag} (s : View t1) (d : View t2)
+    (m : Mem) : Except Err β × Mem :=
+  if compatible t1.fmt t2.fmt then
+    let r := f s d m
+    (.ok r.1, r.2)
+  else (.error .badCast, m)
+
+def binAA {β : Type} (f : {t1 t2 : Tag} → View t1 → View t2 → Mem → β × Mem) (a b : AnyView) (m : Mem) : Except Err β × Mem :=
+  visit2 (fun s d => binObj f s d m) a b
+def binAC {β : Type} (f : {t1 t2 : Tag} → View t1 → View t2 → Mem → β × Mem) (a : AnyView) {t2 : Tag} (d : View t2) (m : Mem) :
+    Except Err β × Mem :=
+  visit1 (fun s => binObj f s d m) a
+def binCA {β : Type} (f : {t1 t2 : Tag} → View t1 → View t2 → Mem → β × Mem) {t1 : Tag} (s : View t1) (b : AnyView) (m : Mem) :
+    Except Err β × Mem :=
+  visit1 (fun d => binObj f s d m) b
+
+/-- `copy_and_convert_pixels_fn<CC>::operator()` on two concrete views: `apply_incompatible` is overridden by the
+    colour-converting copy (the converter OBJECT is a member of the function object) -/
+def ccObj (c : Conv) {t1 t2 : Tag} (s : View t1) (d : View t2) (m : Mem) : Except Err Unit × Mem :=
+  if compatible t1.fmt t2.fmt then (.ok (), copyPixels s d m)
+  else (.ok (), copyPixels (ccView c t2.fmt s) d m)
+
+def ccAA (c : Conv) (a b : AnyView) (m : Mem) : Except Err Unit × Mem := visit2 (fun s d => ccObj c s d m) a b
+def ccAC (c : Conv) (a : AnyView) {t2 : Tag} (d : View t2) (m : Mem) : Except Err Unit × Mem := visit1 (fun s => ccObj c s d m) a
+def ccCA (c : Conv) {t1 : Tag} (s : View t1) (b : AnyView) (m : Mem) : Except Err Unit × Mem := visit1 (fun d => ccObj c s d m) b
+
+/-- `fill_pixels_fn<Value>::operator()(view)`: `fill_pixels_fn1<pixels_are_compatible<V::value_type, Value>>::apply` -/
+def fillObj (pf : Fmt) (p : List Nat) {t : Tag} (v : View t) (m : Mem) : Except Err Unit × Mem :=
+  if compatible t.fmt pf then (.ok (), fillPixels v pf p m) else (.error .badCast, m)
+
+/-- the deprecated `apply_operation(variant, visitor)` / `apply_operation(v1, v2, visitor)` (apply_operation.hpp):
+    `variant2::visit` with the arguments in the other order -/
+def applyOperation1 {γ : Type} (a : AnyView) (k : {t : Tag} → View t → γ) : γ := visit1 k a
+def applyOperation2 {γ : Type} (a b : AnyView) (k : {t1 t2 : Tag} → View t1 → View t2 → γ) : γ := visit2 k a b
+
+/-- a default-constructed `any_image` (variant2 default construction): the FIRST alternative of the list,
+    default-constructed, i.e. an empty image; likewise `any_image_view` -/
+def AnyImage.dflt (f : Fmt) : AnyImage := ⟨f, ⟨0, 0, 0⟩⟩
+
+/-- `at_c<IntTypes, ValueType>(index)` of dynamic_at_c.hpp: run-time lookup in the table built from a compile-time list
+    of integral constants (lists shorter than the 226-entry block limit: one table, `table[index]`) -/
+def atC (table : List Nat) (index : Nat) : Nat := table.getD index 0
+
+/-- `at_c` as dynamic_at_c.hpp builds it for a list of `size` entries (`size / 226 ≤ 3`): lists shorter than the block
+    limit 226 use ONE table; longer lists are cut into blocks selected by `index / 226`, every full block being
+    `at_c_fn<226*blk, 225>` — a table of 225 entries — and the last one `at_c_fn<226*q, size % 226>`.
+    Result: the list position whose value is returned, or `none` when `table[..]` is indexed outside the table
+    (or no `case` matches). -/
+def atCBlock (size index : Nat) : Option Nat :=
+  let q := size / 226
+  if q = 0 then (if index < size then some index else none)
+  else
+    let blk := index / 226
+    if blk < q then (if index - blk * 226 < 225 then some index else none)
+    else if blk = q then (if index - blk * 226 < size % 226 then some index else none)
+    else none
+
 /-! ### defects of the tree under test that the model reproduces (see known_findings.json) -/
 
 /-- lifted operations whose `any_image_view` overload does not compile on the tree under test and for which the
